@@ -28,7 +28,14 @@ from harness import framework, tlc, c03, c04
 KNOWN_ENDIAN = "C04:T:ChosenMostConstrained/EndianAtBuild:arm.cpu_armv7/thumb/be"
 
 
+# TLC workers of the generator runs (default: all cores); a run with more than 2 workers needs 3 of the
+# machine-wide TLC slots at once and can starve on a crowded box: VERIF_GEN_WORKERS=2 avoids that
+GEN_WORKERS = int(os.environ.get("VERIF_GEN_WORKERS", "0") or 0) or None
+MC_WORKERS = int(os.environ.get("VERIF_MC_WORKERS", "0") or 0) or None     # same for the parallel model-checking runs
+
+
 def run_models(ctx, cfgs, workers):
+    workers = MC_WORKERS or workers
     def one(cfg):
         return cfg, tlc.run("DecTree", cfg, workers=workers, tag="c04" + cfg[:-4], timeout=7200, xmx="4g", env=c03.jvm_env(workers))
     with mp.pool.ThreadPool(len(cfgs)) as tp:
@@ -40,7 +47,10 @@ def run_models(ctx, cfgs, workers):
 def gen_and_replay(ctx, cfg, kind, simulate=None, depth=None):
     wd = tlc.workdir("c04_" + kind)
     spool = os.path.join(wd, "beh.spool")
-    res = tlc.run("DecTree", cfg, simulate=simulate, depth=depth, seed=ctx.seed if simulate else None,
+    if simulate:
+        # TLC's -simulate num=N is per worker: keep the total number of runs independent of the worker count
+        simulate = "num=%d" % max(1, int(simulate) // (GEN_WORKERS or tlc.NCPU))
+    res = tlc.run("DecTree", cfg, simulate=simulate, depth=depth, seed=ctx.seed if simulate else None, workers=GEN_WORKERS,
                   spool=spool, tag="c04" + kind, timeout=7200, xmx="4g", env=c03.jvm_env(8))
     ctx.add_tlc(res, "G:" + cfg)
     chunks = tlc.spool_chunks(spool, 64)
@@ -240,9 +250,9 @@ def run(ctx):
     ctx.note("wall_s_M", round(time.time() - t0, 1))
     t0 = time.time()
     # --- G ---------------------------------------------------------------------------------------
-    gens = ([("DecTreeSim.cfg", "simulated7", "num=6", 9), ("DecTreeSim10.cfg", "simulated10", "num=3", 12)] if quick else
-            [("DecTreeGen_thorough.cfg", "exhaustive5", None, None), ("DecTreeSim.cfg", "simulated7", "num=400", 9),
-             ("DecTreeSim10.cfg", "simulated10", "num=200", 12)])
+    gens = ([("DecTreeSim.cfg", "simulated7", 96, 9), ("DecTreeSim10.cfg", "simulated10", 48, 12)] if quick else
+            [("DecTreeGen_thorough.cfg", "exhaustive5", None, None), ("DecTreeSim.cfg", "simulated7", 6400, 9),
+             ("DecTreeSim10.cfg", "simulated10", 3200, 12)])
     for cfg, kind, sim, depth in gens:
         gen_and_replay(ctx, cfg, kind, simulate=sim, depth=depth)
         if failfast(ctx):
